@@ -338,8 +338,9 @@ def _opaque(name):
 
 
 def _sel_ctor(ex, frame, e):
-    """ASSUMED model of SelectedMailbox.__init__: (mailbox_id, readonly, permanent_flags, session_flags,
-    selected_set=, lookup=)"""
+    """callee contract of SelectedMailbox.__init__ (`sel_init` below, proved on the real constructor), applied:
+    (mailbox_id, readonly, permanent_flags, session_flags, selected_set=, lookup=) are kept as given, the new selection is
+    neither deleted nor hiding expunges"""
     args, kw = ex.eval_args(e, frame)
     vals = {'_mailbox_id': args[0], '_readonly': ex.truth(args[1]), '_hide_expunged': VBool(False),
             '_is_deleted': VBool(False)}
@@ -350,6 +351,60 @@ def _sel_ctor(ex, frame, e):
     if 'lookup' in kw and isinstance(kw['lookup'], VRef):
         vals['_lookup'] = kw['lookup']
     return ex.st.new_record(SEL, 'new_selection', vals)
+
+
+# ---- SelectedMailbox.__init__ itself: what _sel_ctor relies on (was an ASSUMED model until the last round)
+_ANY = RefS('AnyObject')
+_KWKEY = RefS('KwKey')
+_PermObj, _SessObj, _SelSetObj = RefS('PermanentFlagsObj'), RefS('SessionFlagsObj'), RefS('SelSetObj')
+SEL_NEW = RecS('SelectedMailbox', pyclass=(SELM.F, 'SelectedMailbox'), _hide_expunged=BOOL, _messages=_ANY,
+               _session_flags=_SessObj, _silenced_flags=SetS(SELM.FK), _silenced_sflags=SetS(SELM.FK),
+               _readonly=BOOL, _mailbox_id=Oid, _lookup=NameR, _permanent_flags=_PermObj, _is_deleted=BOOL,
+               _mod_sequence=_ANY, _prev=_ANY, _selected_set=OptS(_SelSetObj), _kwargs=MapS(_KWKEY, _ANY))
+
+
+def _init_none(ex, frame, e, base=None):
+    ex.eval_args(e, frame)
+    return VNone()
+
+
+def _init_any(ex, frame, e, base=None):
+    ex.eval_args(e, frame)
+    return _ANY.fresh('object')
+
+
+def _init_register(ex, frame, e, base=None):
+    args, kw = ex.eval_args(e, frame)
+    me = ex.frames[0].env['self']
+    ex.oblige(f'{ex.c.name}/registers_itself_in_the_selected_set',
+              z3.BoolVal(isinstance(args[0], VRec) and args[0].rid == me.rid))
+    ex.st.ghost['registered'] = VBool(True)
+    return VNone()
+
+
+def _init_ghost(st, sc):
+    st.ghost['registered'] = VBool(False)
+
+
+sel_init = Contract(
+    'C12', SELM.F, 'SelectedMailbox.__init__',
+    params=dict(self=SEL_NEW, mailbox_id=Oid, readonly=BOOL, permanent_flags=_PermObj, session_flags=_SessObj,
+                selected_set=OptS(_SelSetObj), lookup=NameR, kwargs=MapS(_KWKEY, _ANY)),
+    ensures=[('keeps_the_mailbox_id', lambda s: s.self._mailbox_id == s.mailbox_id),
+             ('keeps_readonly', lambda s: s.self._readonly == s.readonly),
+             ('keeps_the_flag_objects', lambda s: (s.self._permanent_flags == s.permanent_flags) &
+              (s.self._session_flags == s.session_flags)),
+             ('keeps_the_lookup_name', lambda s: s.self._lookup == s.lookup),
+             ('registered_exactly_when_a_selected_set_is_given',
+              lambda s: s.ghost('registered') == ~is_none(s.selected_set)),
+             ('starts_neither_deleted_nor_hiding_expunges', lambda s: ~s.self._is_deleted & ~s.self._hide_expunged)],
+    # `**kwargs` of the real signature is a map from keyword to an opaque object (its three optional entries
+    # _mod_sequence / _prev / _messages are not part of what the session contracts rely on); set() is the empty set,
+    # SynchronizedMessages() an opaque object
+    calls={'super().__init__': _init_none, 'kwargs.get': _init_any, 'set': lambda ex, frame, e, base=None: SetS(SELM.FK).empty(),
+           'SynchronizedMessages': _init_any, 'selected_set.add': _init_register},
+    ghost_init=_init_ghost, modifies=['self'], raises_only=(), returns=NoneS())
+sel_init.str_consts = {'_messages': VRef(z3.Const('key:_messages', _KWKEY.z3()), _KWKEY)}
 
 
 def _rec_ctor(sort):
